@@ -15,7 +15,7 @@ PROP = {
                'needs. Engine E passes extend the text length for the fixed read-all / rewind-to-every-position schedule, enumerate every '
                'position of a single read/seek fault of the underlying buffer, and every (text, offset, literal or character set, entry '
                'point) combination for the error texts.',
- 'level_note': 'history search: texts up to length 4 (quick) / 6 (thorough), 3 slots; straight-line pass: length 8 / 12 (plus a wchar_t '
+ 'level_note': 'history search: texts up to length 4 (quick) / 6 (thorough), 3 slots; straight-line pass: length 10 / 12 (plus a wchar_t '
                'alphabet of characters whose low byte or low 16 bits equal the newline, length 7 / 9); faults: texts up to length 5 / 7, one '
                'fault per run; error texts: texts up to length 4 / 6; no random longer texts (nothing is sampled)',
  'binaries': [{'name': 'C12',
